@@ -287,6 +287,78 @@ func Cmp(a, b *W) int  { return deriveCompare(a, b) }
 func Hash(a *W) uint64 { return deriveHash(a) }
 `
 
+// cross-package flow: the type of xbase.Names is the result type of a derived function, so a derive call in
+// xtop that takes it is only typed once xbase/derived.gen.go exists (clean state, any order / spelling of the
+// two arguments)
+const xbase = `package xbase
+
+var registry = map[string]int{"alpha": 1, "beta": 2}
+
+// Names has the result type of a derived function.
+var Names = deriveKeys(registry)
+
+// Sorted as well, through two derived functions.
+var Sorted = deriveSort(deriveKeys(registry))
+`
+
+const xtop = `package xtop
+
+import "ambig/xbase"
+
+type Point struct {
+	X, Y int
+	Tags []string
+}
+
+func Same(a, b *Point) bool { return deriveEqual(a, b) }
+
+func Known(name string) bool { return deriveContains(xbase.Names, name) }
+
+func First() string { return deriveMin(xbase.Sorted, "") }
+`
+
+// derive calls that occur only in an in-package test file, next to a nested call that forces a second pass
+const testonly = `package testonly
+
+type Stock struct {
+	Count map[string]int
+	Tags  []string
+}
+
+func Articles(s *Stock) []string { return deriveSort(deriveKeys(s.Count)) }
+`
+
+const testonlyTest = `package testonly
+
+import "testing"
+
+func TestStock(t *testing.T) {
+	a := &Stock{Count: map[string]int{"x": 1}}
+	if !deriveEqual(a, a) || deriveCompare(a, a) != 0 || deriveHash(a) != deriveHash(a) {
+		t.Fatal()
+	}
+	if !deriveContains(a.Tags, "x") && len(deriveSet(a.Tags)) != 0 {
+		t.Fatal()
+	}
+}
+`
+
+// the same, with a nested call inside the test file as well
+const testonly2Test = `package testonly2
+
+import "testing"
+
+func TestStock(t *testing.T) {
+	a := &Stock{Count: map[string]int{"x": 1}}
+	if !deriveEqual(a, a) {
+		t.Fatal()
+	}
+	if len(deriveUnique(deriveSort(deriveKeysB(map[string]bool{"a": true})))) != 1 {
+		t.Fatal()
+	}
+}
+`
+
 const bad = `package bad
 
 func Eq(a, b chan int) bool { return deriveEqual(a, b) }
@@ -471,6 +543,12 @@ func main() {
 	add("dep", "dependency-with-test-only-methods", "ok", dep)
 	write("dep/export_test.go", depTest)
 	add("usesdep", "uses-test-augmented-dependency", "ok", usesdep)
+	add("xbase", "flow-base", "ok", xbase)
+	add("xtop", "flow-top", "any", xtop)
+	add("testonly", "calls-only-in-test-file-and-second-pass", "ok", testonly)
+	write("testonly/testonly_test.go", testonlyTest)
+	add("testonly2", "calls-only-in-test-file-and-second-pass", "ok", strings.Replace(testonly, "package testonly", "package testonly2", 1))
+	write("testonly2/testonly2_test.go", testonly2Test)
 	add("bad", "rejected", "fail", bad)
 	n := 6
 	if *thorough {
